@@ -106,7 +106,10 @@ class Pools:
               0.4999995 / 86400.0, 0.5000005 / 86400.0, 1.4999994 / 86400.0, 0.5 / 86400.0, 1.5 / 86400.0,
               0.0000005 / 86400.0, 0.00000049 / 86400.0,
               0.49999 / 86400.0, 0.49998 / 86400.0, 0.50001 / 86400.0, 1.49999 / 86400.0, -0.49999 / 86400.0,
-              -0.50001 / 86400.0, 0.499985 / 86400.0, 0.500015 / 86400.0, 2.499995 / 86400.0]
+              -0.50001 / 86400.0, 0.499985 / 86400.0, 0.500015 / 86400.0, 2.499995 / 86400.0,
+              # microsecond counts in [2^52, 2^53): the double product is an integer already
+              65536.1, 70000.3, 99999.99999, 86400.000011574, math.nextafter(60000.0, 1e9), -math.nextafter(60000.0, 1e9),
+              math.nextafter(75000.0, 0.0), 52125.0 + 1.0 / 3.0, 104000.7, -88888.123456789]
         fl += [rnd.uniform(-1000, 1000) for _ in range(n(5))] + [rnd.uniform(-2, 2) for _ in range(n(5))]
         fl += [float(rnd.randint(-5000, 5000)) for _ in range(n(5))]
         self.f64 = uniq([fspec(x) for x in fl])
